@@ -333,7 +333,8 @@ func codecSignature(p *Prog, fn *ssa.Function, partial *types.Named, version int
 				returnsData = true
 			}
 		}
-		if takesReader && returnsData && onlyCalledFrom(p, h, fn, 2) {
+		if takesReader && returnsData && (onlyCalledFrom(p, h, fn, 2) || (h.Pkg == fn.Pkg && h.Parent() == nil && h.Signature.Recv() == nil)) {
+			// (or a reading helper the codecs of the package share: one field read with its error text)
 			return true
 		}
 		return false
